@@ -8,6 +8,16 @@ Model side: QtVerif.Model.ValueDomain via Driver/C05.lean; numbers cross as exac
 Oracle: the property statement evaluated directly, in exact `Fraction` arithmetic, on the real observations
 (accepted iff exists/enabled/writable/in-domain; a refusal calls no driver and changes nothing observable; an accepted
 request hands the driver coerce(transform(value)); every value a sequence writes comes from an accepted request).
+
+Ports with driver-computed attributes (cases with 'dyn'): a `DynPort` answers BasePort.get_attr() through the
+`attr_is_writable` / `attr_get_step` / `attr_get_min` / `attr_get_max` / `attr_is_integer` / `attr_get_choices` hooks from
+what its driver declares at that moment; the case changes the declaration over time ('attrs'), runs passes of the real
+polling loop `core.main.update()` ('poll'), switches the driver's read side between ok / SkipRead / PortReadError
+('fault'), reads all attributes through GET /ports ('get'), and writes values. "Declared" at the time of a request = what
+the driver declares, provided a polling pass has completed with the port enabled since the declaration changed (that is
+when the unchanged code drops its per-iteration attribute cache, for every enabled port, polled or not); requests made
+before that pass are not judged. min/max/integer/choices only change before the first request (the value schema is built
+once and kept). Details where the oracle is set up in `run_case`.
 """
 import asyncio
 import heapq
@@ -306,11 +316,19 @@ class C05(Prop):
             'writes (valid, one bad element, malformed shapes), bursts of 2-4 overlapping value writes, unknown port ids, '
             'enable/disable, time passing, redefinition of the port under the same id (PUT /ports or DELETE + POST) with '
             'values chosen against the old and the new definition. '
+            'About one case in eight is a multi-step case on a port whose driver computes its attributes (writable, step; '
+            'min/max/integer/choices before the first request): 6..16 operations mixing changes of what the driver declares, '
+            'passes of the real polling loop core.main.update(), read-side states ok/SkipRead/PortReadError (the port is then '
+            'not polled for 10 s), GET /ports, time passing up to 12 s, enable/disable, value writes and bursts chosen against '
+            'the previous and the current declaration; a request is judged against what the driver declares once a polling '
+            'pass has completed (port enabled) since the change. '
             'Non-trivial = at least one accepted and one refused request; distinct = distinct (port definition class, '
             'outcome list).')
     CORRESPONDENCE = ('ValueDomain.step (handleValue/handleSeq/validateValue/performWrite/flush) <-> '
                       'core.api.funcs.ports.patch_port_value / patch_port_sequence + BasePort.get_value_schema / '
-                      'transform_and_write_value / set_sequence')
+                      'transform_and_write_value / set_sequence; for driver-computed attributes: Req.redefine d (no sequence '
+                      'installed; Props.C05.declared_attributes_in_force) <-> the core.main.update() pass that drops '
+                      'BasePort\'s attribute cache after the driver changed what it declares')
     TRUSTED = ['jsonschema Draft4 keywords type/minimum/maximum/enum are modelled, the library is trusted',
                'the write-transform expression is abstract in the model: its value on each request value is computed '
                'with the real parse().eval() (property C02) and handed to the model',
@@ -325,7 +343,12 @@ class C05(Prop):
                    'requests are refused with port-with-expression), but only one whose source is an absent or a disabled '
                    'port: its evaluation raises, so the port\'s own evaluations hand the driver nothing and every driver call '
                    'belongs to a request',
-                   '202 (accepted, not applied right away) and 204 are both "accepted"']
+                   '202 (accepted, not applied right away) and 204 are both "accepted"',
+                   'driver-computed attributes: what the driver declares is in force from the first polling pass '
+                   '(core.main.update(), port enabled) that completes after the change; requests between the change and that '
+                   'pass are neither judged nor compared; min/max/integer/choices do not change after the first value '
+                   'request on the port (the code builds the value schema once per port object and keeps it — observed on the '
+                   'unchanged code, not generated); such ports get value requests only (no sequences, no value expression)']
 
     # ---------------------------------------------------------------- life-cycle
     def setup(self):
@@ -376,6 +399,55 @@ class C05(Prop):
                 self.verif_value = value
 
         self.port_cls = VerifPort
+        self.core_main = core_main
+
+        class DynPort(core_ports.Port):
+            """A port whose driver COMPUTES its attributes: BasePort.get_attr() asks `attr_get_<name>()` /
+            `attr_is_<name>()` first (core/ports.py), which is how a driver reports a write-protect switch, a resolution
+            mode, a range that depends on the device's configuration. `verif_attrs` is what the driver declares right
+            now; `verif_read` is the state of its read side: 'ok' (returns the last written value), 'skip' (SkipRead) or
+            'fault' (PortReadError: the core stops polling the port for a while)."""
+
+            def __init__(self, id_, type_, attrs, latency_ms=0, read_mode='ok'):
+                super().__init__(id_)
+                self._type = type_
+                self.verif_attrs = dict(attrs)
+                self.verif_latency_ms = latency_ms
+                self.verif_read = read_mode
+                self.verif_value = None
+
+            async def attr_is_writable(self):
+                return self.verif_attrs['writable']
+
+            async def attr_get_min(self):
+                return self.verif_attrs['min']
+
+            async def attr_get_max(self):
+                return self.verif_attrs['max']
+
+            async def attr_get_step(self):
+                return self.verif_attrs['step']
+
+            async def attr_is_integer(self):
+                return self.verif_attrs['integer']
+
+            async def attr_get_choices(self):
+                return self.verif_attrs['choices']
+
+            async def read_value(self):
+                if self.verif_read == 'fault':
+                    raise core_ports.PortReadError('verif: the read side is down')
+                if self.verif_read == 'skip':
+                    raise core_ports.SkipRead()
+                return self.verif_value
+
+            async def write_value(self, value):
+                vcalls.setdefault(self.get_id(), []).append(value)      # handed to the driver now
+                if self.verif_latency_ms:
+                    await asyncio.sleep(self.verif_latency_ms / 1000.0)
+                self.verif_value = value
+
+        self.dyn_cls = DynPort
 
         # ports created through the API (POST /ports, PUT /ports) are VirtualPorts: record what their driver method is
         # handed (the class's public write_value is wrapped once per worker process)
@@ -480,6 +552,28 @@ class C05(Prop):
             # NaN / Infinity tokens
             {'port': dict(free, min='0'), 'ops': [['value', True, 'NaN'], ['value', True, 'Infinity'],
                                                    ['value', True, '-Infinity']]},
+            # driver-computed attributes (write-protect switch, resolution): one polling pass after the driver changed,
+            # requests are judged by what it declares now — on a healthy port, on one whose reads are skipped, and on one
+            # whose read side is failing (not polled for a while, the write side still works)
+            *[{'port': valve, 'dyn': True, 'read': rd,
+               'ops': [['value', True, '10'], ['fault', fl], ['poll'], ['value', True, '15'], ['get'],
+                       ['attrs', dict(valve, step='20')], ['poll'], ['advance', 11], ['poll'], ['value', True, '35'],
+                       ['value', True, '40'], ['get'], ['attrs', dict(valve, step='20', writable=False)], ['poll'],
+                       ['value', True, '60'], ['advance', 12001], ['attrs', dict(valve, step='5')], ['get'],
+                       ['value', True, '45'], ['poll'], ['value', True, '45']]}
+              for valve in [dict(free, min='0', max='100', step='5')]
+              for rd, fl in (('ok', 'ok'), ('skip', 'skip'), ('ok', 'fault'), ('fault', 'fault'))],
+            # range / choices declared anew before the first request (the value schema is built by that request)
+            {'port': dict(free, min='0', max='100'), 'dyn': True, 'read': 'fault',
+             'ops': [['get'], ['attrs', dict(free, min='0', max='10')], ['poll'], ['value', True, '30'], ['value', True, '7'],
+                     ['attrs', dict(free, min='0', max='10', writable=False)], ['get'], ['poll'], ['value', True, '7']]},
+            {'port': dict(free, choices=['1', '2', '3']), 'dyn': True, 'read': 'fault',
+             'ops': [['poll'], ['get'], ['attrs', dict(free, choices=['1', '5'])], ['poll'], ['value', True, '3'],
+                     ['value', True, '5']]},
+            # a polling pass that finds the port disabled does not look at it: the change is in force after the next one
+            {'port': dict(free, min='0', max='100', step='5', enabled=False), 'dyn': True, 'read': 'ok',
+             'ops': [['attrs', dict(free, min='0', max='100', step='5', enabled=False, writable=False)], ['poll'], ['enable'],
+                     ['value', True, '10'], ['poll'], ['value', True, '10'], ['disable'], ['value', True, '10']]},
         ]
 
     # ---------------------------------------------------------------- generator
@@ -805,7 +899,130 @@ class C05(Prop):
             npd['expr'] = None if npd.get('expr') else rng.choice(NUM_EXPR if npd['type'] == 'number' else BOOL_EXPR)
         return self._virtualize(rng, npd)
 
+    def _gen_attr_change(self, rng, pd, requested):
+        """What the driver declares next: the write-protect switch, the resolution (step); before the first request also
+        the range, the integer flag or the choices (afterwards the value schema is kept, see run_case)."""
+        npd = dict(pd)
+        kinds = ['writable', 'writable', 'writable', 'step', 'step', 'step', 'both']
+        if not requested and pd['type'] == 'number':
+            kinds += ['max', 'min', 'integer', 'choices', 'nochoices', 'range']
+        k = rng.choice(kinds)
+        if pd['type'] == 'boolean' and k in ('step', 'both'):
+            k = 'writable'
+        lo = F(pd['min']) if pd['min'] is not None else F(0)
+        hi = F(pd['max']) if pd['max'] is not None else lo + 100
+        if k in ('writable', 'both'):
+            npd['writable'] = not pd['writable']
+        if k in ('step', 'both'):
+            cur = pd['step']
+            pool = ['0.1', '0.5', '1', '2', '3', '0.25', '5', '20', '10', '0.2', None]
+            if cur is not None and F(cur) != 0 and rng.random() < 0.6:
+                # coarser or finer grid over the same origin: old grid points that are off the new grid, and conversely
+                try:
+                    pool = [self._dec(F(cur) * m) for m in (2, 4, 3, 10, F(1, 2), F(1, 5))]
+                except ValueError:
+                    pass
+            npd['step'] = rng.choice([x for x in pool if x != cur] or ['7'])
+            if npd['step'] is not None and npd['min'] is None and not requested:
+                npd['min'] = '0'
+        if k == 'max':
+            npd['max'] = self._dec(lo + (hi - lo) * rng.choice([F(1, 10), F(1, 2), F(10), F(2)])) if hi > lo else self._dec(lo + 10)
+        elif k == 'min':
+            npd['min'] = self._dec(lo + rng.choice([F(1), F(-10), (hi - lo) / 2 if hi > lo else F(2), F(1, 2)]))
+        elif k == 'range':
+            npd['min'], npd['max'] = self._dec(lo + (hi - lo) / 4), self._dec(lo + (hi - lo) / 2)
+        elif k == 'integer':
+            npd['integer'] = not pd['integer']
+        elif k == 'choices':
+            pool = ['0', '1', '2', '3', '5', '2.5', '10', '0.5', '7', '4']
+            keep = [c for c in (pd['choices'] or []) if c not in ('true', 'false') and rng.random() < 0.5]
+            npd['choices'] = (keep + [rng.choice(pool), rng.choice(pool)])[:4]
+        elif k == 'nochoices':
+            npd['choices'] = None
+        return npd
+
+    def _gen_dyn(self, rng, pd):
+        """A multi-step case on a port whose driver computes its attributes: the declared attributes change over time,
+        interleaved with passes of the real polling loop, read faults, attribute reads through the API and value writes."""
+        pd = dict(pd, enabled=rng.random() < 0.93, writable=rng.random() < 0.8)
+        pd.pop('expr', None)
+        case = {'port': pd, 'dyn': True, 'read': rng.choice(['ok', 'ok', 'skip', 'fault', 'fault'])}
+        if rng.random() < 0.15:
+            case['latency'] = rng.choice([20, 50])
+        ops = []
+        cur, old, requested, en = pd, None, False, pd['enabled']
+        pending = False     # a change of range / integer / choices is declared but not yet in force
+
+        def poll():
+            nonlocal pending
+            ops.append(['poll'])        # (a pass that finds the port disabled changes nothing for it)
+            if en:
+                pending = False
+
+        n = rng.randint(6, 16)
+        while len(ops) < n:
+            r = rng.random()
+            if r < 0.20:
+                if rng.random() < 0.4:
+                    ops.append(['get'])
+                old, cur = cur, self._gen_attr_change(rng, cur, requested)
+                ops.append(['attrs', cur])
+                if any(cur.get(k) != old.get(k) for k in ('min', 'max', 'integer', 'choices')):
+                    pending = True
+                if rng.random() < 0.3:
+                    ops.append(['get'])
+                if rng.random() < 0.88:
+                    poll()
+                    if rng.random() < 0.3:
+                        poll()
+            elif r < 0.30:
+                ops.append(['fault', rng.choice(['fault', 'fault', 'fault', 'ok', 'skip'])])
+                if rng.random() < 0.85:
+                    poll()                      # a failing read is noticed here; the port is not polled for a while
+            elif r < 0.37:
+                poll()
+            elif r < 0.42:
+                ops.append(['get'])
+            elif r < 0.47:
+                ops.append(['advance', rng.choice([1, 101, 501, 1001, 5001, 10001, 12001])])
+            elif r < 0.50:
+                ops.append(['enable'])
+                en = True
+            elif r < 0.52:
+                ops.append(['disable'])
+                en = False
+            else:
+                if pending and not requested:
+                    # the first request (it builds the value schema) comes after the range / choices came into force
+                    if not en:
+                        ops.append(['enable'])
+                        en = True
+                    poll()
+                # values on the previous grid / in the previous range are the telling ones after a change
+                ref = old if (old is not None and rng.random() < 0.5) else cur
+                known = rng.random() < 0.97
+                if rng.random() < 0.12:
+                    ops.append(self._gen_burst(rng, ref))
+                elif rng.random() < 0.75:
+                    ops.append(['value', known, self._gen_good_value(rng, ref)])
+                else:
+                    ops.append(['value', known, self._gen_value(rng, ref)])
+                requested = True
+        case['ops'] = ops
+        return case
+
     def gen(self, rng, tier):
+        case = self._gen_classic(rng, tier)
+        # about one case in eight is replaced by a multi-step case on a port with driver-computed attributes; the choice
+        # and the case are drawn from a generator derived from the classic case, so that the stream of classic cases of a
+        # seed stays what it was
+        import random
+        sub = random.Random('dyn/' + json.dumps(case, sort_keys=True))
+        if sub.random() < 0.125:
+            return self._gen_dyn(sub, case['port'])
+        return case
+
+    def _gen_classic(self, rng, tier):
         pd = self._gen_port(rng)
         kind = rng.random()
         case = {'port': pd}
@@ -955,7 +1172,15 @@ class C05(Prop):
         """The port follows a value expression (the attribute only exists on writable ports)."""
         return bool(pd.get('expr')) and bool(pd.get('writable', True))
 
-    async def _prepare(self, pid, pd, virtual, parsed_ops, start):
+    def _driver_attrs(self, pd):
+        """What the driver of a DynPort declares for the definition pd (Python values, as an attribute getter returns
+        them)."""
+        parsed = self._parse_port(pd)
+        return {'min': parsed['min'], 'max': parsed['max'], 'step': parsed['step'], 'integer': pd['integer'],
+                'choices': None if parsed['choices'] is None else [{'value': c} for c in parsed['choices']],
+                'writable': bool(pd['writable'])}
+
+    async def _prepare(self, pid, pd, virtual, parsed_ops, start, dyn=False):
         """Bring the (new) port to its initial state: write transform, enabled flag; compute the outcomes of the write
         transform (real expression evaluator) for every value requested while this definition is in force."""
         port = self.core_ports.get(pid)
@@ -999,6 +1224,11 @@ class C05(Prop):
                 k = jval_tok(v)
                 if k not in touts:
                     touts[k] = await self._tout(expr, pid, v)
+        if dyn:
+            # the port was created writable (a write transform can only be set on a writable port); from here on the
+            # driver declares the case's definition, and one polling pass makes it the definition in force
+            port.verif_attrs = self._driver_attrs(pd)
+            await self.core_main.update()
         if not pd.get('enabled', True):
             await port.disable()
         return touts
@@ -1010,10 +1240,16 @@ class C05(Prop):
         self.counter += 1
         pid = f'vp{self.counter}'
         calls = self._vcalls[pid] = []
+        dyn = bool(case.get('dyn'))
         if virtual:
             r = await self._api(self.ports_funcs.post_ports, self._doc(pid, pd))
             if r != 'ok':
                 raise RuntimeError(f'POST /ports refused the port definition: {r}')
+        elif dyn:
+            await self.core_ports.load([{
+                'driver': self.dyn_cls, 'id_': pid, 'type_': pd['type'],
+                'attrs': dict(self._driver_attrs(pd), writable=True), 'latency_ms': latency,
+                'read_mode': case.get('read') or 'ok'}])
         else:
             parsed = self._parse_port(pd)
             choices = None if parsed['choices'] is None else [{'value': c} for c in parsed['choices']]
@@ -1023,7 +1259,7 @@ class C05(Prop):
                 'latency_ms': latency}])
         out = []
         try:
-            touts = await self._prepare(pid, pd, virtual, parsed_ops, 0)
+            touts = await self._prepare(pid, pd, virtual, parsed_ops, 0, dyn=dyn)
             await asyncio.sleep(1e-6)
             calls.clear()
             for idx, (op, body) in enumerate(parsed_ops):
@@ -1056,6 +1292,16 @@ class C05(Prop):
                         await port.disable()
                     elif op[0] == 'advance':
                         await asyncio.sleep(op[1] / 1000.0)
+                    elif op[0] == 'attrs':
+                        port.verif_attrs = self._driver_attrs(op[1])     # the driver declares other attributes from now on
+                    elif op[0] == 'fault':
+                        port.verif_read = op[1]                          # the state of the driver's read side
+                    elif op[0] == 'poll':
+                        await self.core_main.update()                    # one pass of the real polling loop
+                    elif op[0] == 'get':
+                        r = await self._api(self.ports_funcs.get_ports)  # GET /ports: every attribute is read
+                        if r != 'ok':
+                            raise RuntimeError(f'GET /ports failed: {r}')
                     elif op[0] == 'redefine':
                         if op[1] == 'put':
                             res = await self._api(self.ports_funcs.put_ports, [dict(self._doc(pid, op[2]), virtual=True)])
@@ -1068,7 +1314,7 @@ class C05(Prop):
                         else:
                             res = 'redefine-failed:' + str(res)
                 except Exception as e:
-                    if op[0] in ('enable', 'disable', 'advance'):
+                    if op[0] in ('enable', 'disable', 'advance', 'attrs', 'fault', 'poll', 'get'):
                         raise
                     res = f'err:500:exception:{type(e).__name__}'
                 await asyncio.sleep(1e-6)     # lets everything that is ready run (virtual time: nothing else is due)
@@ -1152,9 +1398,25 @@ class C05(Prop):
                 calls = [canon_tok(t) for t in body_.split(',')] if body_ else []
             return self._canon_model(op, rep), calls
 
+        # a port with driver-computed attributes: the model is told the new definition at the moment it comes into force
+        # (the first polling pass, with the port enabled, after the driver changed — see `run_case`)
+        en = bool(pd.get('enabled', True))
+        declared = None
         for idx, (op, body) in enumerate(parsed_ops + [(['advance', BIG_DRAIN_MS], None)]):
             touts = real[idx]['touts']
-            if op[0] == 'value':
+            if op[0] == 'attrs':
+                declared = op[1]
+                out.append(('ok', []))
+            elif op[0] in ('fault', 'get'):
+                out.append(('ok', []))
+            elif op[0] == 'poll':
+                if declared is not None and en:
+                    npd = dict(declared, enabled=True)
+                    declared = None
+                    out.append(ask(op, self._port_line(npd, self._parse_port(npd), 'redefine')))
+                else:
+                    out.append(('ok', []))
+            elif op[0] == 'value':
                 if not body[0]:
                     out.append(('malformed-body', []))
                     continue
@@ -1192,6 +1454,7 @@ class C05(Prop):
                         f' {len(delays)} ' + ' '.join(jval_tok(d) for d in delays)).replace('  ', ' ').strip()
                 out.append(ask(op, line))
             elif op[0] in ('enable', 'disable'):
+                en = op[0] == 'enable'
                 out.append(ask(op, op[0]))
             elif op[0] == 'redefine':
                 npd = dict(op[2], enabled=True, writable=True)       # a port created through the API starts enabled
@@ -1298,6 +1561,45 @@ class C05(Prop):
                 tags.add('port:degenerate')
 
         in_force(case['port'], True)
+        # ---- a port whose driver computes its attributes (case['dyn']). What "the port's declared domain / writable" means
+        # at the time of a request, as established on the unchanged code:
+        #   * BasePort keeps computed attributes in a per-iteration cache which core.main.update() drops for every ENABLED
+        #     port at every pass, whether or not the port is then read (also while its read side is failing and it is not
+        #     polled). So what the driver declares is in force for the API from the first polling pass that completes,
+        #     with the port enabled, after the driver changed. Between the change and that pass the API may see either
+        #     (depending on what happened to be cached): such requests are not judged and not compared with the model.
+        #   * the value schema (min, max, integer, choices) is built once per port object, at the first value/sequence
+        #     request, and kept (BasePort._value_schema): a change of those four after the first request never reaches it.
+        #     Such histories are not generated; if one arises (shrinking) the requests after it are not judged either.
+        #   * writable and step are read again for every request.
+        dyn = bool(case.get('dyn'))
+        declared = None         # what the driver declares since the last 'attrs' op while it is not yet in force
+        declared_at = None
+        requested = False       # a value request was made: the value schema exists
+        undecided = False       # the value schema may have been built from attributes that were not in force
+        skip_cmp = set()
+        in_force_note = ''
+        SCHEMA_ATTRS = ('min', 'max', 'integer', 'choices')
+        if dyn:
+            tags.add('port:dyn')
+            tags.add('dyn:read:' + (case.get('read') or 'ok'))
+            if any(op[0] in ('seq', 'redefine') for op in ops) or virtual or self._has_expr(case['port']):
+                raise AssertionError('a case with driver-computed attributes has value requests only')
+
+        def rebind(npd, idx):
+            nonlocal pd, parsed, wf, prev, in_force_note
+            prev = (pd, parsed, wf)
+            changed = [k for k in ('writable', 'step') + SCHEMA_ATTRS if npd.get(k) != pd.get(k)]
+            pd = npd
+            parsed = self._parse_port(pd)
+            wf = well_formed(pd, parsed)
+            in_force_note = (f' (the driver declares {", ".join(f"{k}={pd.get(k)!r}" for k in changed) or "the same attributes"} '
+                             f'since op {declared_at}; a polling pass completed at op {idx})')
+            for k in changed:
+                tags.add('dyn:in-force:' + k)
+            if not wf:
+                tags.add('port:degenerate')
+
         if virtual:
             tags.add('port:virtual')
         if case.get('latency'):
@@ -1373,9 +1675,13 @@ class C05(Prop):
                                                     'ground for refusing a value write)' if self._has_expr(pd) else '')
                        if should else 'accepted although ' +
                        ('the port does not exist' if not known else 'the port is disabled' if not enabled else
-                        'the port is read-only' if not pd['writable'] else 'the value is outside the domain') +
-                       (' of the definition in force' if prev is not None else ''))
+                        'the port is read-only' if not pd['writable'] else 'the value is outside the domain' +
+                        (' of the definition in force' if prev is not None else '')) + (in_force_note if dyn else ''))
                 f = Failure('property', f'op {idx}: value {text} -> {res}: {why}', real=real, where=where)
+            if dyn and prev is not None and d is not None:
+                old_should = bool(known) and enabled and prev[0]['writable'] and prev[2] and in_domain(prev[0], prev[1], v)
+                if old_should != should:
+                    tags.add('dyn:request-telling-old-from-new:' + rc)
             if strict and is_number(v) and pd['tw'] is None and exp is not None:
                 exp = ['n', frac_tok(F(text))]
             return f, accepted, exp, True, where
@@ -1396,6 +1702,38 @@ class C05(Prop):
                     fail = Failure('property', f'op {idx}: the driver was called while the port was redefined', real=real)
                 in_force(op[2], False)
                 continue
+            if op[0] == 'attrs':
+                last = declared if declared is not None else pd
+                ch = [k for k in ('writable', 'step') + SCHEMA_ATTRS if op[1].get(k) != last.get(k)]
+                tags.add('dyn:attrs:' + (','.join(ch) or 'same'))
+                if requested and any(k in SCHEMA_ATTRS for k in ch):
+                    undecided = True
+                declared, declared_at = op[1], idx
+                if ob['calls'] and fail is None:
+                    fail = Failure('property', f'op {idx}: the driver was called with no request', real=real)
+                continue
+            if op[0] in ('poll', 'fault', 'get'):
+                tags.add('dyn:' + op[0] + (':' + op[1] if op[0] == 'fault' else ''))
+                if op[0] == 'poll' and declared is not None and enabled:
+                    rebind(declared, idx)
+                    declared = None
+                if ob['calls'] and fail is None:
+                    fail = Failure('property', f'op {idx}: the driver was called with no request', real=real)
+                continue
+            if dyn and op[0] in ('value', 'burst'):
+                if declared is not None and not requested and any(declared.get(k) != pd.get(k) for k in SCHEMA_ATTRS):
+                    undecided = True
+                requested = True
+                if undecided or declared is not None:
+                    # not judged (see above); a refusal still must not reach the driver
+                    skip_cmp.add(idx)
+                    tags.add('dyn:request-not-judged:' + ('value-schema-kept' if undecided else 'before-polling-pass'))
+                    rs = ob['res'] if op[0] == 'burst' else [ob['res']]
+                    if all(self._canon_real(['value'], r) != 'ok' for r in rs) and ob['calls'] and fail is None:
+                        fail = Failure('property', f'op {idx} {op[:2]}: refused ({rs}) but the driver was called with '
+                                       f'{[canon(c) for c in ob["calls"]]}', real=real)
+                    continue
+                tags.add('dyn:request-judged')
             if op[0] == 'advance':
                 for c in (ob['calls'] if wf else []):
                     cc = canon(c)
@@ -1530,6 +1868,8 @@ class C05(Prop):
         model_c = [[m[0], sorted(m[1], key=json.dumps) if op[0] == 'burst' else m[1]] for (op, _), m in zip(all_ops, model)]
         if fail is None:
             for i, (a, b) in enumerate(zip(real_c, model_c)):
+                if i in skip_cmp:
+                    continue
                 same_calls = len(a[1]) == len(b[1]) and all(same_delivery(x, y) for x, y in zip(a[1], b[1]))
                 if not same_calls and all_ops[i][0][0] == 'burst' and len(a[1]) == len(b[1]):
                     rest = list(b[1])     # multiset comparison up to binary64 identification
